@@ -259,6 +259,16 @@ fn single_bytes(run: &Run) {
 fn witness_seq(c: &SeqCase) -> Value { json!({"text": show(&c.text), "values": c.items.iter().map(|(v, a, b)| json!({"v": crate::val::brief_v(v), "start": a, "end": b})).collect::<Vec<_>>()}) }
 fn witness_ind(c: &IndCase) -> Value { json!({"text": show(&c.text), "nr": c.nr, "gen": c.gen, "value": crate::val::brief_v(&c.val), "stream": c.stream.as_ref().map(|d| show(d))}) }
 
+/// Re-run a stored witness (choice tape + generator parameters) against the current tree.
+pub fn replay(prefix: &str, tape: &[u32], params: &Value) -> Option<Option<(String, String)>> {
+    let mut s = Src::replay(tape);
+    match prefix {
+        "seq" => { let c = gen_seq(&mut s, params["max_items"].as_u64()? as u32, params["depth"].as_u64()? as u32); Some(run_seq(&c)) }
+        "indirect" => { let c = gen_ind(&mut s); Some(run_ind(&c)) }
+        _ => None,
+    }
+}
+
 pub fn run(run: &Run) {
     run.rule("values (all Primitive kinds, depth<=4, i32 ints, reals <=7 significant digits, strings over all bytes, UTF-8 names) printed by a conformant randomized printer (separators: every white-space char, runs, comments ended by LF/CR/CRLF, none where legal; literal escapes, octal 1-3 digits, line continuations, balanced parens, raw EOLs; hex strings with ws/odd digits; names with #xx; +/leading-zero/fraction-only numbers; references; LF/CRLF after stream) as single values, sequences on one lexer (position checked) and indirect objects/streams; plus exhaustive token-adjacency matrix and all one-byte strings / #xx names. Failing cases are tape-shrunk; distinct_nontrivial = distinct texts");
     run.assume("the printer in harness/src/printer.rs emits only spellings ISO 32000-1 7.2-7.3 permits; names restricted to valid UTF-8 without NUL");
@@ -271,7 +281,7 @@ pub fn run(run: &Run) {
         run.eval();
         let max_items = if i % 3 == 0 { 1 } else { 6 };
         check_case(run, "C03", "seq", s, &|s| gen_seq(s, max_items, depth), &run_seq, &witness_seq,
-            &|c, s| { run.nontrivial(fnv(&c.text)); for l in &s.labels { run.count(&format!("label:{}", l)); } if i < 5 { run.sample(witness_seq(c)); } });
+            &|c, s| { run.nontrivial(fnv(&c.text)); for l in &s.labels { run.count(&format!("label:{}", l)); } if i < 5 { run.sample(witness_seq(c)); } }, json!({"max_items": max_items, "depth": depth}));
     });
     if !run.quick() { crate::lanes::miri(run, "parse", &[1, 2, 3, 4, 5, 6, 7, 8], None); }
     let n2 = run.n(300_000, 5_000_000);
@@ -279,7 +289,7 @@ pub fn run(run: &Run) {
         let s = Src::fresh(Rng::derive(run.seed, 33, i));
         run.eval();
         check_case(run, "C03", "indirect", s, &gen_ind, &run_ind, &witness_ind,
-            &|c, s| { run.nontrivial(fnv(&c.text)); run.count(if c.stream.is_some() { "indirect:stream" } else { "indirect:value" }); for l in &s.labels { run.count(&format!("label:{}", l)); } if i < 3 { run.sample(witness_ind(c)); } });
+            &|c, s| { run.nontrivial(fnv(&c.text)); run.count(if c.stream.is_some() { "indirect:stream" } else { "indirect:value" }); for l in &s.labels { run.count(&format!("label:{}", l)); } if i < 3 { run.sample(witness_ind(c)); } }, json!({}));
     });
     // thorough: the same quick workload once more under the AddressSanitizer build (memory errors in the library or its dependencies)
     if !run.quick() { crate::lanes::asan_rerun(run); }
